@@ -40,8 +40,9 @@ def roots_with_history(res, gs, per_game, rnd):
 
 
 def in_domain(ps):
+    """D = V and E and M (the search properties quantify over D; legal material also keeps capture trees and move lists bounded)"""
     ind = run_driver_par(["sind " + p for p in ps])
-    return [d.split()[0] == "1" and d.split()[1] == "1" for d in ind]
+    return [d.split() == ["1", "1", "1"] for d in ind]
 
 
 def hist_str(h):
@@ -569,11 +570,16 @@ def run_C19(res):
     ps = [p for p, o in zip(ps, ok) if o]
     res.coverage["rule"] = ("positions whose capture tree has <= 3000 qsearch nodes; exact value by plain minimax over Spec captures/successors with the engine evaluation; "
                             "windows: full, around v, excluding v below and above, width 1; non-trivial = the position has at least one legal capture")
+    # quiescence has no depth bound: a constructed position with many mutually attacking pieces has an astronomically large capture
+    # tree. Keep positions with at most 16 men or at most 4 legal captures (the playout positions are kept by the second test mostly).
+    feats = run_driver_par(["feat " + p for p in ps])
+    ps = [p for p, f in zip(ps, feats)
+          if bin(Pos(p).c0 | Pos(p).c1).count("1") <= 16 or int(dict(kv.split("=") for kv in f.split())["caps"]) <= 4]
     full = run_hx_par([f"qs {p} -10000000 10000000" for p in ps])
     keep = [(p, f) for p, f in zip(ps, full) if f not in ("PANIC", "DIED") and int(f.split()[1]) <= 3000]
     rnd.shuffle(keep)
-    keep = keep[: (400 if res.tier == "quick" else 12000)]
-    exact = run_driver_par([f"sqmin {p} {1200 if res.tier == 'quick' else 20000}" for p, _ in keep])
+    keep = keep[: (400 if res.tier == "quick" else 3000)]
+    exact = run_driver_par([f"sqmin {p} {1200 if res.tier == 'quick' else 2000}" for p, _ in keep])
     res.count("capture_trees_too_big_skipped", sum(1 for v in exact if v == "BIG"))
     pairs = [(k, v) for k, v in zip(keep, exact) if v != "BIG"]
     keep = [k for k, v in pairs]
